@@ -325,6 +325,10 @@ def _export_cases(draw, tier):
     shapes = []
     for _ in range(n):
         d = _surface(draw, False)
+        sc = draw(st.sampled_from([0, 0, 0, -10, -14]))          # small parts in large units: exact power-of-two scaling
+        if sc:
+            d["P"] = [[c * 2.0 ** sc for c in q] for q in d["P"]]
+            d["scale_exp"] = sc
         k, nu, nv = draw(_sizes("quick", kmax=3))
         shapes.append({"defn": d, "nu": nu, "nv": nv})
     k = draw(st.integers(1, 2))
@@ -438,8 +442,10 @@ def check_exports(case, ctx):
             cr = [e1[1] * e2[2] - e1[2] * e2[1], e1[2] * e2[0] - e1[0] * e2[2], e1[0] * e2[1] - e1[1] * e2[0]]
             mag = math.sqrt(sum(x * x for x in cr))
             nm = math.sqrt(sum(x * x for x in nrm))
-            if mag <= 1e-9:
-                ctx.check(nm <= 1e-6 * (1 + max(abs(x) for t in tri for x in t) ** 2), "stl-normal", "%s: degenerate facet with normal %r" % (what, nrm))
+            edge = max(max(abs(x) for x in e1), max(abs(x) for x in e2), max(abs(a - b) for a, b in zip(tri[0], tri[2])))
+            if mag <= 1e-7 * edge * edge:
+                # a sliver or collapsed triangle (relative to its own edge lengths) has no reliable normal
+                ctx.check(nm <= 1.0 + 1e-6, "stl-normal", "%s: degenerate facet with normal %r" % (what, nrm))
             else:
                 cosang = sum(a * b for a, b in zip(cr, nrm)) / (mag * max(nm, 1e-300))
                 ctx.check(nm > 0 and cosang >= 1.0 - 1e-5, "stl-normal", "%s: facet normal %r is not parallel and equally oriented to (v1-v0)x(v2-v1) = %r" % (what, nrm, cr))
